@@ -41,8 +41,8 @@ A, NS, CNAME, SOA, PTR, MX, TXT, AAAA, SRV, OPT, RRSIG, TSIG = 1, 2, 5, 6, 12, 1
 SIG = 24
 
 SPECIAL_OPTIONS = sorted(int(k) for k in dns.edns._type_to_class)
-# ... of which the model (MessageM.opt_dec) leaves out REPORTCHANNEL (a name read with the message parser)
-UNMODELLED_OPTIONS = [18]
+# ... all of which are modelled (MessageM.opt_dec; REPORTCHANNEL, a name read with the message parser, in opts_loop)
+UNMODELLED_OPTIONS = []
 
 
 def mk_option(code, data):
